@@ -850,6 +850,17 @@ func runCmpOutLevel(c *Ctx, r *RuleRun) {
 			// the index that names the file: stores to tableHandle.levelIdx depend on a call with a level argument
 			for _, st := range storesToField(f, idxField) {
 				p.dependsOn(st.Val, func(x ssa.Value) bool {
+					// maxIdx(lm.levels[L]): a function over the level's list instead of a method over its number
+					if cl, ok := x.(*ssa.Call); ok && len(p.Callees(cl)) == 1 && p.Callees(cl)[0].Pkg == f.Pkg && len(cl.Call.Args) == 1 {
+						if ld, ok := cl.Call.Args[0].(*ssa.UnOp); ok && ld.Op == token.MUL {
+							if ia, ok := ld.X.(*ssa.IndexAddr); ok {
+								if fv, _ := loadedField(ia.X); fv == levels {
+									got["next free index of level"] = o.nf(ia.Index)
+									return true
+								}
+							}
+						}
+					}
 					if cl, ok := x.(*ssa.Call); ok && len(p.Callees(cl)) == 1 && p.recvIs(p.Callees(cl)[0], "levelManager") && len(cl.Call.Args) == 2 {
 						if bt, ok := cl.Call.Args[1].Type().Underlying().(*types.Basic); ok && bt.Kind() == types.Int {
 							got["next free index of level"] = o.nf(cl.Call.Args[1])
@@ -868,6 +879,15 @@ func runCmpOutLevel(c *Ctx, r *RuleRun) {
 				cs := p.Callees(cl)
 				if len(cl.Call.Args) >= 3 && len(cs) == 1 && d.tablePub.FuncSuccess(cs[0]) {
 					got["durable writer"] = o.nf(cl.Call.Args[1])
+				} else if len(cs) == 1 && d.tablePub.FuncSuccess(cs[0]) {
+					// a writer that is handed the file name: the level the name was built with (lm.fileName(level, idx))
+					for _, arg := range cl.Call.Args {
+						if nc, ok := arg.(*ssa.Call); ok && isStringType(nc.Type()) && len(nc.Call.Args) == 3 {
+							if g := nc.Call.StaticCallee(); g != nil && p.recvIs(g, "levelManager") {
+								got["durable writer"] = o.nf(nc.Call.Args[1])
+							}
+						}
+					}
 				}
 				// list insert: lm.levels[L].PushBack
 				if obj := p.ExtCallee(cl); obj != nil && funcIs(obj, "container/list", "List", "PushBack") {
